@@ -40,7 +40,7 @@ def fscript(rng, n, i, tryj, panic=0.03, perr=0.3, maxlen=4, drain=False):
     if drain:
         for _ in range(rng.randint(0, maxlen)):
             st.append(("!s:" if rng.random() < 0.9 else fires(rng, n)) + "P")
-        st.append(fires(rng, n, 0.15) + (f"F{500+i}" if (tryj and rng.random() < perr) else f"R{100+i}"))
+        st.append(fires(rng, n, 0.15 if maxlen else 0.0) + (f"F{500+i}" if (tryj and rng.random() < perr) else f"R{100+i}"))    # maxlen = 0: nobody wakes anybody
         return ",".join(st)
     for _ in range(rng.randint(0, maxlen)):
         r = rng.random()
@@ -63,12 +63,12 @@ def sscript(rng, n, i, panic=0.03, maxlen=6, pitem=0.45, ppend=0.4, drain=False)
     k = 0
     if drain:       # (Pending | Item)* End, every Pending step self-waking: polling alone drains the stream
         for _ in range(rng.randint(0, maxlen)):
-            if rng.random() < 0.4:
+            if rng.random() < min(ppend, 0.4):
                 st.append(("!s:" if rng.random() < 0.9 else fires(rng, n)) + "P")
             else:
-                st.append(fires(rng, n, 0.15) + f"I{100*(i+1)+k}")
+                st.append(fires(rng, n, 0.15 if ppend else 0.0) + f"I{100*(i+1)+k}")
                 k += 1
-        st.append(fires(rng, n, 0.15) + "E")
+        st.append(fires(rng, n, 0.15 if ppend else 0.0) + "E")         # ppend = 0: nobody wakes anybody
         return ",".join(st)
     for _ in range(rng.randint(0, maxlen)):
         r = rng.random()
@@ -159,11 +159,12 @@ def gen_fixed(rng, cfg, combs, count, tag, panic=0.03, style="mixed", allow_zero
         else:
             cont, n = pick_container(rng, cfg, comb, allow_zero)
         r = rng.random()
-        drain = style == "drain" or (style == "mixed" and r >= 0.85)
+        drain = style == "drain" or (style == "mixed" and r >= (0.5 if large else 0.85))     # large containers: half of the cases run to completion
+        allready = drain and rng.random() < 0.25       # nobody ever answers Pending: everything is ready in every poll
         if comb in FUT:
-            scs = ";".join(fscript(rng, n, i, comb in TRY, panic, 0.6 if comb == "race_ok" else 0.3, drain=drain) for i in range(n))
+            scs = ";".join(fscript(rng, n, i, comb in TRY, panic, 0.6 if comb == "race_ok" else 0.3, drain=drain, **({"maxlen": 0} if allready else {})) for i in range(n))
         else:
-            scs = ";".join(sscript(rng, n, i, panic, drain=drain) for i in range(n))
+            scs = ";".join(sscript(rng, n, i, panic, drain=drain, **({"ppend": 0.0} if allready else {})) for i in range(n))
         if drain:
             # polls until everything has been consumed (one result per poll at most), a few stale wake-ups in between, polls after the end
             total = sum(len(x.split(",")) for x in scs.split(";")) if n else 0
